@@ -653,7 +653,7 @@ def reg_check(prop, tier, seed, work, replay):
         # (a changed regulator may have a much larger graph than the model: the exploration stops at 1.3 x the model's size)
         st = vlib.drive(binary, ["reg-explore", "-max", mx, "-min", mn, "-maxreg", reg, "-maxbatch", 3, "-maxout", 2, "-repeat", T["repeat"], "-o", f, "-scripts", scr,
                                  "-max-states", int(m["distinct"] * 1.3) + 500,
-                                 "-settle", T["settle"] if prop == "C20" else 0], timeout=3600)
+                                 "-settle", T["settle"] if prop == "C20" else 0, "-settle-every", 1 if m["distinct"] < 30000 else 4], timeout=3600)
         stats["explore%d%d%d" % (mx, mn, reg)] = st
         files[f] = scr
         both.append({"scope": {"max": mx, "min": mn, "registrants": reg, "batch": 3, "eliminations_per_sync": 2},
